@@ -107,6 +107,27 @@ def check(c):
     dr = [s for s in c.idx.walk(tm.node) if isinstance(s, ast.Assign)
           and 'self.queuings.popleft()' in norm(s.value)]
     c.floor('C42.callback-kept', 'terminate drains the queue', len(dr), 1)
+    # process() refills free slots from the queue: on termination it may run
+    # only once the queue is empty, and the pool is closed first -- otherwise
+    # commands are started while stopping and never reaped or called back
+    cfgt = c.cfg(tm)
+    drains = [w for w in c.idx.walk(tm.node) if isinstance(w, ast.While)
+              and norm(w.test) == 'self.queuings']
+    c.floor('C42.terminate-order', 'drain loop `while self.queuings`',
+            len(drains), 1)
+    procs = c.find(tm, 'self.process()')
+    c.floor('C42.terminate-order', 'self.process() in terminate',
+            len(procs), 1)
+    for p in procs:
+        for w in drains:
+            ok = cfgt.dominated_by(c.idx.stmt_of(p), lambda s, w=w: s is w)
+            c.ob('C42.terminate-order', c.key(p, tm) + ' only after the '
+                 'queue is drained', ok, c.where(p, tm), '' if ok else
+                 'process() runs with commands still queued: it starts them '
+                 'although the pool is terminating; nothing reaps them or '
+                 'calls them back')
+        c.pre('C42.terminate-order', tm, p, c.matches('self.close()'),
+              'self.close()')
 
     # ---- bounds
     for n in [x for x in packs_r if norm(x.func.value) == 'self.runnings']:
